@@ -45,7 +45,7 @@ func (c04Checker) Meta() CheckerMeta {
 		Real:        []string{"pongo2 package (compile once; Execute, ExecuteBytes, ExecuteWriter, ExecuteWriterUnbuffered, ExecuteBlocks; every tag/filter the generator writes)", "pongo2.FSLoader / HttpFilesystemLoader over the simulated disk"},
 		Stub:        []string{"caller's io.Writer", "context call-backs (fault points)", "template files (in-memory disk)", "virtual TemplateLoader"},
 		Assumptions: []string{"constructs documented to depend on clock, randomness or map order are not generated (now without fake, lorem random, random filter, unsorted map loops)", "the static half of the quantifier (all reachable writes) is not attempted"},
-		QuickRuns:   8000, QuickRace: 0,
+		QuickRuns:   6000, QuickRace: 0,
 	}
 }
 
@@ -176,6 +176,7 @@ func (c04Checker) Run(tp *Tapes, opt RunOpt) *Outcome {
 		nontrivial := false
 		for i, e := range hist {
 			got := sys.exec(sp, i, e, sys.pool[e.Ctx])
+			out.dig(got.String())
 			out.Execs++
 			fired := mergeFired(sys.w)
 			ref, rerr := c04Compile(sp, disk)
